@@ -1,0 +1,51 @@
+//! Read-only inspection hook for external verification harnesses.
+//!
+//! Compiled only with `--cfg priority_queue_verif`; it adds nothing to the
+//! normal build. It never mutates the queue, uses only checked accessors
+//! (so it is safe to call on a queue whose internal tables were left
+//! inconsistent by a caught panic) and never panics.
+
+use crate::store::Store;
+use crate::{DoublePriorityQueue, PriorityQueue};
+
+/// A copy of the internal index tables plus references to the stored pairs.
+pub struct VerifSnapshot<'a, I, P> {
+    /// heap position -> slot index in the map
+    pub heap: Vec<usize>,
+    /// slot index in the map -> heap position
+    pub qp: Vec<usize>,
+    /// the `size` field (what `len()` reports)
+    pub size: usize,
+    /// number of entries really held by the map
+    pub map_len: usize,
+    /// the map entries in slot order
+    pub slots: Vec<(&'a I, &'a P)>,
+}
+
+impl<I, P, H> Store<I, P, H> {
+    pub(crate) fn verif_snapshot(&self) -> VerifSnapshot<'_, I, P> {
+        VerifSnapshot {
+            heap: self.heap.iter().map(|i| i.0).collect(),
+            qp: self.qp.iter().map(|p| p.0).collect(),
+            size: self.size,
+            map_len: self.map.len(),
+            slots: (0..self.map.len())
+                .filter_map(|i| self.map.get_index(i))
+                .collect(),
+        }
+    }
+}
+
+impl<I, P, H> PriorityQueue<I, P, H> {
+    /// Snapshot of the internal tables (verification builds only).
+    pub fn verif_snapshot(&self) -> VerifSnapshot<'_, I, P> {
+        self.store.verif_snapshot()
+    }
+}
+
+impl<I, P, H> DoublePriorityQueue<I, P, H> {
+    /// Snapshot of the internal tables (verification builds only).
+    pub fn verif_snapshot(&self) -> VerifSnapshot<'_, I, P> {
+        self.store.verif_snapshot()
+    }
+}
